@@ -37,6 +37,11 @@ structure Fam (σ : Type) where
   assign : HList → List String → Option (HList × Option σ × String)
   /-- `del response.prop` -/
   delete : HList → Option (HList × String)
+  /-- `response.prop = <held view object>`: new headers and result; `none` = the property has no
+  setter (AttributeError) -/
+  assignView : HList → σ → Option (HList × String) := fun _ _ => none
+  /-- the setter re-binds the object's `on_update` to the assigned-to response -/
+  rebinds : Bool := false
 
 /-- the dump reads the property once more (after the header list was printed) -/
 def dumpAll {σ : Type} (f : Fam σ) (h : HList) (v : σ) : String × HList :=
@@ -63,6 +68,82 @@ def runFam {σ : Type} (f : Fam σ) (init : String) (ops : List String) : Option
   let (v, h) := f.load h0
   let d := dumpAll f h v
   let outs ← runOps f d.2 v ops
+  pure (";".intercalate (("#" ++ d.1) :: outs))
+
+/-! ### two responses sharing view objects
+
+request: `view2 <family> <prop> <init0> <init1> op…` with ops
+`f,<j>,<i>` (held[j] = r_i.prop), `v,<j>,<view op…>`, `av,<j>,<i>` (r_i.prop = held[j]),
+`h,<i>,<header op…>`, `hr,<i>,<pairs>` (r_i.headers = Headers(pairs)), `as,<i>,<raw assignment…>`,
+`del,<i>`. A held object carries the index of the response its `on_update` writes to. -/
+
+def getH (hs : HList × HList) (i : Nat) : HList := if i == 0 then hs.1 else hs.2
+def setH (hs : HList × HList) (i : Nat) (h : HList) : HList × HList := if i == 0 then (h, hs.2) else (hs.1, h)
+
+def dumpAll2 {σ : Type} (f : Fam σ) (hs : HList × HList) (held : List (σ × Nat)) : String × (HList × HList) :=
+  let r0 := f.load hs.1
+  let r1 := f.load hs.2
+  ("H0=" ++ oPairs hs.1 ++ "|H1=" ++ oPairs hs.2 ++ "|" ++
+    "|".intercalate (held.mapIdx fun j x => "V" ++ toString j ++ "=" ++ f.show_ x.1) ++
+    "|R0=" ++ f.show_ r0.1 ++ "|R1=" ++ f.show_ r1.1, (r0.2, r1.2))
+
+def idx01 (s : String) : Option Nat := do
+  let n ← s.toNat?
+  if n < 2 then some n else none
+
+def runOps2 {σ : Type} (f : Fam σ) (hs : HList × HList) (held : List (σ × Nat)) : List String → Option (List String)
+  | [] => some []
+  | o :: t => do
+    let (hs', held', ret) ← (match o.splitOn "," with
+      | ["f", j, i] => do
+        let j ← idx01 j
+        let i ← idx01 i
+        let r := f.load (getH hs i)
+        pure (setH hs i r.2, held.set j (r.1, i), "~")
+      | "v" :: j :: fields => do
+        let j ← idx01 j
+        let x ← held[j]?
+        let (h', v', res) ← f.vop (getH hs x.2) x.1 fields
+        pure (setH hs x.2 h', held.set j (v', x.2), res)
+      | ["av", j, i] => do
+        let j ← idx01 j
+        let i ← idx01 i
+        let x ← held[j]?
+        match f.assignView (getH hs i) x.1 with
+        | none => pure (hs, held, oExc "AttributeError")
+        | some (h', res) =>
+          pure (setH hs i h', if f.rebinds && !res.startsWith "!" then held.set j (x.1, i) else held, res)
+      | "h" :: i :: fields => do
+        let i ← idx01 i
+        let (h', r) ← directEdit (getH hs i) fields
+        pure (setH hs i h', held, r)
+      | ["hr", i, ps] => do
+        let i ← idx01 i
+        let ps ← pPairs ps
+        match Hdr.construct (some (.pairs ps)) with
+        | .ok l => pure (setH hs i l, held, "~")
+        | .error e => pure (hs, held, oExc e)
+      | "as" :: i :: fields => do
+        let i ← idx01 i
+        let (h', _, r) ← f.assign (getH hs i) fields
+        pure (setH hs i h', held, r)
+      | ["del", i] => do
+        let i ← idx01 i
+        let (h', r) ← f.delete (getH hs i)
+        pure (setH hs i h', held, r)
+      | _ => none : Option ((HList × HList) × List (σ × Nat) × String))
+    let d := dumpAll2 f hs' held'
+    let rest ← runOps2 f d.2 held' t
+    pure ((ret ++ "#" ++ d.1) :: rest)
+
+def runFam2 {σ : Type} (f : Fam σ) (init0 init1 : String) (ops : List String) : Option String := do
+  let h0 ← pPairs init0
+  let h1 ← pPairs init1
+  let r0 := f.load h0
+  let r1 := f.load h1
+  let held := [(r0.1, 0), (r1.1, 1)]
+  let d := dumpAll2 f (r0.2, r1.2) held
+  let outs ← runOps2 f d.2 held ops
   pure (";".intercalate (("#" ++ d.1) :: outs))
 
 /-! ### HeaderSet views -/
@@ -117,6 +198,7 @@ def famSet (name : Str) : Fam HS.St where
     pure (h', r.st, resOf r.res)
   assign h fields := (assignRaw h name fields Http.dumpHeaderDict).map fun (h', r) => (h', none, r)
   delete _ := none
+  assignView h v := let r := SetView.assign h name v; some (r.1, resOf r.2)
 
 /-! ### Cache-Control -/
 
@@ -237,6 +319,7 @@ def famCSP (name writeName : Str) : Fam CSP.St where
       pure (r.1, none, resOf r.2)
     | _ => none
   delete _ := none
+  assignView h v := let r := CSP.assign h name writeName v; some (r.1, resOf r.2)
 
 /-! ### Content-Range -/
 
@@ -283,6 +366,7 @@ def famCR : Fam CR.St where
         pure (r.1, none, resOf r.2)
     | _ => none
   delete _ := none
+  assignView h v := let r := CR.write h v; some (r.1, resOf r.2)
 
 /-! ### WWW-Authenticate -/
 
@@ -334,6 +418,8 @@ def famAuth : Fam Auth.St where
   delete h :=
     let name := "WWW-Authenticate".toList
     some (if Hdr.contains h name then delKey h name else h, "~")
+  assignView h v := let r := Auth.write h v; some (r.1, resOf r.2)
+  rebinds := true
 
 /-! ### mimetype_params -/
 
@@ -399,6 +485,63 @@ def scalarSet (h : HList) (attr val : String) : Option (HList × String) := do
     let r := Scalar.set h name t
     pure (r.1, resOf r.2)
 
+/-! #### typed properties that are not `header_property` descriptors -/
+
+def specialAttrs : List String := ["retry_after", "mimetype", "access_control_allow_credentials", "etag"]
+
+def specialGet (h : HList) (attr : String) : Option String :=
+  if attr == "retry_after" then
+    some (match Scalar.retryAfterGet h with
+      | .none => "~"
+      | .seconds i => "sec:" ++ oInt i
+      | .date t => oS t)
+  else if attr == "mimetype" then some (oOptS (MP.mimetype h))
+  else if attr == "access_control_allow_credentials" then some (oBool (Scalar.credentialsGet h))
+  else if attr == "etag" then
+    some (match Scalar.getEtag h with
+      | none => "~"
+      | some (e, w) => "(" ++ oS e ++ "," ++ oBool w ++ ")")
+  else none
+
+/-- value forms: `~` None, `t` / `f` booleans, `i<int>`, `s<text>`, `e<0|1><text>` (etag, weak) -/
+def specialSet (h : HList) (attr val : String) : Option (HList × String) :=
+  let fin (r : Hdr.Res Unit) : Option (HList × String) := some (r.1, resOf r.2)
+  if attr == "retry_after" then
+    match val.toList with
+    | ['~'] => fin (Scalar.retryAfterSet h none)
+    | 'i' :: r => (String.ofList r).toInt?.bind fun i => fin (Scalar.retryAfterSet h (some (CC.intText i)))
+    | 's' :: r => (pAtom (String.ofList r)).bind fun t => fin (Scalar.retryAfterSet h (some t))
+    | _ => none
+  else if attr == "mimetype" then
+    match val.toList with
+    | 's' :: r => (pAtom (String.ofList r)).bind fun t => fin (Scalar.mimetypeSet h t)
+    | _ => none
+  else if attr == "access_control_allow_credentials" then
+    fin (Scalar.credentialsSet h (val == "t"))
+  else if attr == "etag" then
+    match val.toList with
+    | 'e' :: w :: r => (pAtom (String.ofList r)).bind fun t => fin (Scalar.setEtag h t (w == '1'))
+    | _ => none
+  else none
+
+def runSpecial (attr : String) (h : HList) : List String → Option (List String)
+  | [] => some []
+  | o :: t => do
+    let (h', ret) ← (match o.splitOn "," with
+      | "h" :: fields => directEdit h fields
+      | ["set", v] => specialSet h attr v
+      | ["del"] => some (h, oExc "AttributeError")
+      | _ => none : Option (HList × String))
+    let g ← specialGet h' attr
+    let rest ← runSpecial attr h' t
+    pure ((ret ++ "#H=" ++ oPairs h' ++ "|G=" ++ g) :: rest)
+
+def handleSpecial (attr init : String) (ops : List String) : Option String := do
+  let h ← pPairs init
+  let g ← specialGet h attr
+  let outs ← runSpecial attr h ops
+  pure (";".intercalate (("#H=" ++ oPairs h ++ "|G=" ++ g) :: outs))
+
 def runScalar (attr : String) (h : HList) : List String → Option (List String)
   | [] => some []
   | o :: t => do
@@ -434,7 +577,22 @@ def handle : Handler
         else if fam == "cr" then runFam famCR init ops
         else if fam == "auth" then runFam famAuth init ops
         else if fam == "mp" then runFam famMP init ops
-        else if fam == "scalar" then handleScalar (String.ofList p) init ops
+        else if fam == "scalar" then
+          (if specialAttrs.contains (String.ofList p) then handleSpecial (String.ofList p) init ops
+           else handleScalar (String.ofList p) init ops)
+        else none)
+  | "view2", fam :: prop :: init0 :: init1 :: ops =>
+    orBad (match unhexStr prop with
+      | none => none
+      | some p =>
+        if fam == "set" then runFam2 (famSet p) init0 init1 ops
+        else if fam == "cc" then runFam2 famCC init0 init1 ops
+        else if fam == "csp" then
+          runFam2 (famCSP (lower p) (if lower p == "content-security-policy".toList then "Content-Security-Policy".toList
+            else "Content-Security-policy-report-only".toList)) init0 init1 ops
+        else if fam == "cr" then runFam2 famCR init0 init1 ops
+        else if fam == "auth" then runFam2 famAuth init0 init1 ops
+        else if fam == "mp" then runFam2 famMP init0 init1 ops
         else none)
   | _, _ => none
 
